@@ -232,26 +232,43 @@ def check(ctx):
     ctx.rule('C10-D4 resolve(Fixed(s)) == s', n, ok, floor=1)
     I.contracts['offset::Offset::resolve'] = con
     fn = 'offset::Offset::resolve_hms'
-    N.run(fn, variants=('fixed',))
+    # the offset is +-(3600 H + 60 M + S) with H = 0..23 one by one and M, S symbolic in [0, 59]: whatever formula the code uses, the
+    # result must be (+-H, M, S) -- hour with the sign of the offset, minute and second as magnitudes
+    I32_ = {'k': 'int', 's': True, 'bits': 32, 'name': 'i32'}
+    MV, SV = D.sym_vid(0, 59, 'M'), D.sym_vid(0, 59, 'S')
     n = ok = 0
-    for args, st0, outs in N.results.get(fn, []):
-        offv = args[0][2][0][0][1]
-        for st, rv in outs:
-            n += 1
-            good = False
-            if rv[0] == 't' and len(rv[1]) == 3 and all(x[0] == 'i' for x in rv[1]):
-                h_, m_, s_ = rv[1]
-                for sm in (1, -1):
-                    for ss in (1, -1):
-                        f = D.aff_add(D.aff_add(D.aff_scale(D.aff_of(h_[1]), 3600), D.aff_scale(D.aff_of(m_[1]), 60 * sm)), D.aff_scale(D.aff_of(s_[1]), ss))
-                        if D.aff_equiv(f, D.aff_of(offv), 0, st=st):
-                            ml, mh = D.get_iv(st, m_[1]); sl, sh = D.get_iv(st, s_[1])
-                            if 0 <= ml and mh <= 59 and 0 <= sl and sh <= 59:
-                                good = True
-            if good:
-                ok += 1
-            else:
-                ctx.finding('C10:RESOLVEHMS', 'AFF', I.bodies[fn]['span'], 'Offset::resolve_hms: 3600*h +/- 60*m +/- s is not the stored offset with m, s in [0,59]')
+    saved_res = I.contracts.get('offset::Offset::resolve')
+    cases = [(sg, H, (0, 59), (0, 59)) for sg in (1, -1) for H in range(24) if not (sg == -1 and H == 0)]
+    cases += [(-1, 0, (0, 59), (1, 59)), (-1, 0, (1, 59), (0, 0))]        # a negative offset below one hour is not zero
+    for sign, H, mr, sr in cases:
+        if True:
+            def res(I_, st, args, dty, site, sign=sign, H=H, mr=mr, sr=sr):
+                st.iv[MV], st.iv[SV] = mr, sr
+                v = I_.binop(st, 'Mul', ('i', MV, 'i32'), const_int(60 * sign, 'i32'), I32_, None, None)
+                v = I_.binop(st, 'Add', v, I_.binop(st, 'Mul', ('i', SV, 'i32'), const_int(sign, 'i32'), I32_, None, None), I32_, None, None)
+                v = I_.binop(st, 'Add', v, const_int(3600 * H * sign, 'i32'), I32_, None, None)
+                return [(st, v)]
+            I.contracts['offset::Offset::resolve'] = res
+            label = f'{fn}[{"+" if sign > 0 else "-"}{H}h {mr} {sr}]'
+            N.run(fn, label=label, variants=('fixed',))
+            for args, st0, outs in N.results.get(label, []):
+                for st, rv in outs:
+                    n += 1
+                    good = False
+                    if rv[0] == 't' and len(rv[1]) == 3 and all(x[0] == 'i' for x in rv[1]):
+                        h_, m_, s_ = rv[1]
+                        hv = D.get_iv(st, h_[1])
+                        good = (hv == (sign * H, sign * H) and D.aff_equiv(D.aff_of(m_[1]), D.Aff({MV: 1}, 0), 0, st=st)
+                                and D.aff_equiv(D.aff_of(s_[1]), D.Aff({SV: 1}, 0), 0, st=st))
+                    if good:
+                        ok += 1
+                    else:
+                        ctx.finding('C10:RESOLVEHMS', 'AFF', I.bodies[fn]['span'],
+                                    f'Offset::resolve_hms: for an offset of {"+" if sign > 0 else "-"}({H} h, M min, S s) the result is not ({sign * H}, M, S)')
+    if saved_res is not None:
+        I.contracts['offset::Offset::resolve'] = saved_res
+    else:
+        I.contracts.pop('offset::Offset::resolve', None)
     ctx.rule('C10-D4 resolve_hms decomposes the offset', n, ok, floor=1)
 
     # ---- D2 / D5: getters, one day inside the range ends
